@@ -626,6 +626,10 @@ func (c *Ctx) mathApp(st *State, name string, ts []T) T {
 			ax(implies(le(x, px), le(t, pt)))
 			ax(implies(eq(x, px), eq(t, pt)))
 		case "pow":
+			if prev[0].S == x.S {
+				// x^p * x^(-p) = 1 for x > 0
+				ax(implies(and(gt(x, real0), eq(prev[1], app(SReal, "-", ts[1]))), eq(app(SReal, "*", pt, t), real1)))
+			}
 			same := eq(prev[1], ts[1])
 			ax(implies(and(same, gt(ts[1], real0), ge(px, real0), le(px, x)), le(pt, t)))
 			ax(implies(and(same, gt(ts[1], real0), ge(x, real0), le(x, px)), le(t, pt)))
